@@ -14,21 +14,72 @@ variable {σ : Type}
 
 /-- `read_bom` fails only with the schedule's first fatal error, and otherwise leaves it ahead. -/
 theorem readBom_fault (s : Sched) :
-    (∃ k, (readBom s).1 = .error k ∧ Sched.firstFail s = some k) ∨
-    (rdIsOk (readBom s).1 = true ∧ Sched.firstFail (readBom s).2 = Sched.firstFail s) := by
-  induction s with
-  | nil => right; simp [readBom, rdIsOk, Sched.firstFail]
-  | cons e s ih =>
-    cases e with
-    | intr => simpa [readBom, Sched.firstFail] using ih
-    | fail k => left; exact ⟨k, by simp [readBom, Sched.firstFail]⟩
-    | chunk bs =>
-      simp only [readBom, Sched.firstFail]
-      by_cases h0 : bs.length = 0
-      · simpa [h0] using ih
-      · by_cases h3 : bs.length ≥ 3
-        · right; simp [h0, h3, rdIsOk, firstFail_pushRest]
-        · simpa [h0, h3] using ih
+    (∃ k, (readBomPush s).1 = .error k ∧ Sched.firstFail s = some k) ∨
+    (rdIsOk (readBomPush s).1 = true ∧ Sched.firstFail (readBomPush s).2 = Sched.firstFail s) := by
+  obtain ⟨h1, h2⟩ := readBomPush_spec s
+  cases hb : (readBomPush s).1 with
+  | ok enc =>
+    right
+    rw [hb] at h2
+    exact ⟨rfl, (h2 rfl).2⟩
+  | error k =>
+    left
+    refine ⟨k, rfl, ?_⟩
+    rw [hb] at h1
+    unfold bomSpec at h1
+    split at h1
+    · cases hf : Sched.firstFail s with
+      | none => rw [hf] at h1; simp at h1
+      | some k' => rw [hf] at h1; simp at h1; rw [h1]
+    · simp at h1
+
+/-- with a fatal error ahead the `read_line` loop either fails with it or returns a non-empty line. -/
+theorem rawLoop_fault (enc : Encoding) (k : IoKind) (f : Nat) (bs buf : List UInt8)
+    (h : buf ≠ [] ∨ 0 < f) :
+    (rawLoop enc (some k) f bs buf).1 = .error k ∨
+    ∃ b, (rawLoop enc (some k) f bs buf).1 = .ok b ∧ b ≠ [] := by
+  induction f generalizing bs buf with
+  | zero =>
+    cases h with
+    | inl hb => right; exact ⟨buf, rfl, hb⟩
+    | inr h0 => omega
+  | succ n ih =>
+    simp only [rawLoop, untilSpec]
+    cases hs : splitAtLF bs with
+    | mk p o =>
+      cases o with
+      | none => left; rfl
+      | some rest =>
+        have hne : buf ++ p ≠ [] := by
+          have := splitAtLF_some_ne_nil hs
+          simp [this]
+        have fin : ∀ r : List UInt8,
+            ((Except.ok (buf ++ p) : Except IoKind (List UInt8)), r).1 = .error k ∨
+            ∃ b, ((Except.ok (buf ++ p) : Except IoKind (List UInt8)), r).1 = .ok b ∧ b ≠ [] :=
+          fun r => Or.inr ⟨buf ++ p, rfl, hne⟩
+        simp only []
+        split
+        · exact fin _
+        · split
+          · exact fin _
+          · cases enc with
+            | utf8 => exact fin _
+            | utf16be =>
+              simp only []
+              split
+              · exact fin _
+              · exact ih rest (buf ++ p) (Or.inl hne)
+            | utf16le =>
+              simp only []
+              split
+              · cases rest with
+                | nil => left; rfl
+                | cons c r =>
+                  simp only [nextByteSpec]
+                  split
+                  · right; exact ⟨buf ++ p ++ [c], rfl, by simp⟩
+                  · exact ih r (buf ++ p ++ [c]) (Or.inl (by simp))
+              · exact ih rest (buf ++ p) (Or.inl hne)
 
 /-- with a fatal error ahead, reading lines ends in exactly that error: `read_line` never reports
 end of input before reaching it. -/
@@ -42,55 +93,34 @@ theorem linesSpec_fault (enc : Encoding) (k : IoKind) (bs : List UInt8) :
     intro bs hl
     have : bs = [] := List.eq_nil_of_length_eq_zero (by omega)
     subst this
-    rw [linesSpec_unfold]; simp [rawSpec, untilSpec, splitAtLF]
+    rw [linesSpec_unfold]; simp [rawSpec, rawLoop, untilSpec, splitAtLF]
   | succ n ih =>
     intro bs hl
     rw [linesSpec_unfold]
+    have hlp := rawLoop_fault enc k (bs.length + 1) bs [] (Or.inr (Nat.succ_pos _))
     cases hq : rawSpec enc bs (some k) with
     | mk r rest =>
       have hlt : ∀ buf, r = .ok (some buf) → rest.length < bs.length := fun buf e => rawSpec_some_lt (e ▸ hq)
-      cases r with
-      | error k' =>
-        -- every error `rawSpec` produces with a fault ahead is that fault
-        simp only []
-        unfold rawSpec untilSpec at hq
-        cases hs : splitAtLF bs with
-        | mk p o =>
-          rw [hs] at hq
-          cases o with
-          | none => simp at hq; rw [hq.1]
-          | some r0 =>
-            simp only [List.nil_append] at hq
-            split at hq
-            · simp at hq
-            · split at hq
-              · unfold byteSpec at hq
-                cases r0 with
-                | nil => simp at hq; rw [hq.1]
-                | cons b r1 => simp at hq
-              · simp at hq
-      | ok o =>
-        cases o with
-        | none =>
-          -- impossible: `Ok(None)` needs end of input, and the fault comes first
-          exfalso
-          unfold rawSpec untilSpec at hq
-          cases hs : splitAtLF bs with
-          | mk p o =>
-            rw [hs] at hq
-            cases o with
-            | none => simp at hq
-            | some r0 =>
-              have hne := splitAtLF_some_ne_nil hs
-              have : p.isEmpty = false := by cases p <;> simp_all
-              simp only [List.nil_append, this, Bool.false_eq_true, if_false] at hq
-              split at hq
-              · unfold byteSpec at hq
-                cases r0 <;> simp at hq
-              · simp at hq
-        | some buf =>
+      unfold rawSpec at hq
+      cases hv : rawLoop enc (some k) (bs.length + 1) bs [] with
+      | mk r0 rest0 =>
+        rw [hv] at hq hlp
+        cases hlp with
+        | inl he =>
+          simp only at he
+          subst he
+          simp at hq
+          rw [← hq.1]
+        | inr ho =>
+          obtain ⟨b, hb, hne⟩ := ho
+          simp only at hb
+          subst hb
+          have : b.isEmpty = false := by cases b <;> simp_all
+          simp [this] at hq
+          obtain ⟨q1, q2⟩ := hq
+          subst q1
           simp only []
-          exact ih rest (by have := hlt buf rfl; omega)
+          exact ih rest (by have := hlt b rfl; omega)
 
 /-- **A fatal reader error is surfaced.** Whatever the schedule — chunking, interruptions, position
 of the fault, even after the last byte — `decode` returns the schedule's first fatal error, never
@@ -103,7 +133,7 @@ theorem read_fault_surfaces (D : LineDecoder σ) (s : Sched) (k : IoKind)
   | inl hl =>
     obtain ⟨k', h1, h2⟩ := hl
     rw [h] at h2
-    cases hb : readBom s with
+    cases hb : readBomPush s with
     | mk r s1 =>
       rw [hb] at h1
       simp only at h1
@@ -111,7 +141,7 @@ theorem read_fault_surfaces (D : LineDecoder σ) (s : Sched) (k : IoKind)
       simp_all
   | inr hr =>
     obtain ⟨h1, h2⟩ := hr
-    cases hb : readBom s with
+    cases hb : readBomPush s with
     | mk r s1 =>
       rw [hb] at h1 h2
       simp only at h1 h2
@@ -126,6 +156,12 @@ theorem read_fault_surfaces (D : LineDecoder σ) (s : Sched) (k : IoKind)
 
 example : Sched.firstFail [.chunk [0x5B, 0x47, 0x5D, 0x0A], .intr, .fail .timedOut, .chunk [0x41]] = some .timedOut := rfl
 
+/-- a fault of kind `UnexpectedEof` right after the 0x0A byte of a UTF-16LE line feed is surfaced
+like any other (the extra byte is taken with `next_byte`, not `read_exact`). -/
+example (D : LineDecoder σ) :
+    decodeSched D [.chunk [0xFF, 0xFE, 0x41, 0x00, 0x0A], .fail .unexpectedEof, .chunk [0x00]] = .error .unexpectedEof :=
+  read_fault_surfaces D _ _ rfl
+
 /-- no partial result: success means the reader never failed. -/
 theorem ok_means_no_fault (D : LineDecoder σ) (s : Sched) (st : σ)
     (h : decodeSched D s = .ok st) : Sched.firstFail s = none := by
@@ -136,104 +172,83 @@ theorem ok_means_no_fault (D : LineDecoder σ) (s : Sched) (st : σ)
 /-- `Interrupted` results do not count as faults and do not change which fault is surfaced. -/
 theorem interrupted_not_a_fault (D : LineDecoder σ) (s : Sched) :
     decodeSched D (dropIntr s) = decodeSched D s := by
-  unfold decodeSched
-  rw [readBom_dropIntr]
-  cases readBom s with
-  | mk r s1 =>
-    cases r with
-    | error k => rfl
-    | ok enc =>
-      simp only []
-      rw [readAll_eq_spec, readAll_eq_spec, pre_dropIntr, firstFail_dropIntr]
+  rw [decodeSched_spec, decodeSched_spec, pre_dropIntr, firstFail_dropIntr]
 
-/-- **An error comes from the reader — or from the UTF-16LE tail.** If `decode` fails then either
-the error is the reader's first fatal error, or the reader never failed, the file is UTF-16LE and
-its last line ends on a 0x0A byte with no byte after it (then the error is `UnexpectedEof`). -/
-theorem decode_err_only_from_reader_partial (D : LineDecoder σ) (s : Sched) (k : IoKind)
-    (h : decodeSched D s = .error k) :
-    Sched.firstFail s = some k ∨
-    (Sched.firstFail s = none ∧ k = .unexpectedEof ∧ (readBom s).1 = .ok .utf16le ∧
-      leDangling (Sched.pre (readBom s).2) = true) := by
+/-- without a fault `read_line` does not fail, in any encoding, on any bytes. -/
+theorem rawSpec_nofault (enc : Encoding) (bs : List UInt8) : rdIsOk (rawSpec enc bs none).1 = true := by
+  cases enc with
+  | utf8 =>
+    rw [rawSpec_utf8]
+    cases hs : splitAtLF bs with
+    | mk p o => cases o <;> simp only [] <;> (try split) <;> rfl
+  | utf16be =>
+    have := rawSpec_utf16 false bs
+    simp only [Bool.false_eq_true, if_false] at this
+    rw [this]; split <;> rfl
+  | utf16le =>
+    have := rawSpec_utf16 true bs
+    simp only [if_true] at this
+    rw [this]; split <;> rfl
+
+theorem linesSpec_nofault (enc : Encoding) (bs : List UInt8) : (linesSpec enc none bs).2 = none := by
+  suffices h : ∀ n, ∀ bs : List UInt8, bs.length ≤ n → (linesSpec enc none bs).2 = none from
+    h _ bs (Nat.le_refl _)
+  intro n
+  induction n with
+  | zero =>
+    intro bs hl
+    have : bs = [] := List.eq_nil_of_length_eq_zero (by omega)
+    subst this
+    rw [linesSpec_nil]
+  | succ n ih =>
+    intro bs hl
+    rw [linesSpec_unfold]
+    have hok := rawSpec_nofault enc bs
+    cases hq : rawSpec enc bs none with
+    | mk r rest =>
+      rw [hq] at hok
+      cases r with
+      | error k => simp [rdIsOk] at hok
+      | ok o =>
+        cases o with
+        | none => rfl
+        | some buf =>
+          simp only []
+          exact ih rest (by have := rawSpec_some_lt hq; omega)
+
+/-- **Every error of `decode` is an error the reader reported**: if `decode` fails, the schedule
+contains a fatal error and the result is the first one. (Before the repair of `read_line` the bytes
+`FF FE 0A` failed with `UnexpectedEof` from a reader that never failed — former finding F6.) -/
+theorem decode_err_only_from_reader (D : LineDecoder σ) (s : Sched) (k : IoKind)
+    (h : decodeSched D s = .error k) : Sched.firstFail s = some k := by
   cases hf : Sched.firstFail s with
   | some k0 =>
-    left
     rw [read_fault_surfaces D s k0 hf] at h
     cases h; rfl
   | none =>
-    right
-    rw [decodeSched_eq] at h
-    cases readBom_fault s with
-    | inl hl =>
-      obtain ⟨k', _, h2⟩ := hl
-      rw [hf] at h2; cases h2
-    | inr hr =>
-      obtain ⟨h1, h2⟩ := hr
-      cases hb : readBom s with
-      | mk r s1 =>
-        rw [hb] at h h1 h2
-        simp only at h h1 h2
-        cases r with
-        | error k' => simp [rdIsOk] at h1
-        | ok enc =>
-          simp only [] at h
-          rw [h2, hf] at h
-          by_cases hle : (enc == Encoding.utf16le) = true
-          · have : enc = .utf16le := by simpa using hle
-            subst this
-            obtain ⟨e2, _⟩ := linesSpec_rawLinesLE (Sched.pre s1)
-            cases hl : linesSpec .utf16le none (Sched.pre s1) with
-            | mk ls e =>
-              rw [hl] at h e2
-              simp only at h e2
-              cases e with
-              | none => cases h
-              | some k1 =>
-                simp only [] at h
-                cases hd : leDangling (Sched.pre s1) with
-                | false => simp [hd] at e2
-                | true =>
-                  simp [hd] at e2
-                  subst e2
-                  cases h
-                  exact ⟨rfl, rfl, rfl, rfl⟩
-          · have hne : (enc == Encoding.utf16le) = false := by simpa using hle
-            rw [linesSpec_rawLines enc hne] at h
-            cases h
+    exfalso
+    have hbom : bomSpec s.pre none = (.ok (Encoding.fromBom s.pre).1, s.pre.drop (Encoding.fromBom s.pre).2) := by
+      unfold bomSpec; split <;> rfl
+    rw [decodeSched_spec, hf] at h
+    unfold decodeSpec at h
+    rw [hbom] at h
+    have hn : ∀ enc rest, (match linesSpec enc none rest with
+        | (_, some k) => (Except.error k : Except IoKind σ)
+        | (ls, none) => .ok (frame D ls)) ≠ .error k := by
+      intro enc rest
+      have := linesSpec_nofault enc rest
+      cases hl : linesSpec enc none rest with
+      | mk ls e => rw [hl] at this; simp only at this; subst this; simp
+    exact hn _ _ h
 
-/-- conversely, that tail always fails (finding F6): the condition is exact. -/
-theorem dangling_lf_errors (D : LineDecoder σ) (s : Sched)
-    (hf : Sched.firstFail s = none) (he : (readBom s).1 = .ok .utf16le)
-    (hd : leDangling (Sched.pre (readBom s).2) = true) :
-    decodeSched D s = .error .unexpectedEof := by
-  rw [decodeSched_eq]
-  cases readBom_fault s with
-  | inl hl =>
-    obtain ⟨k', _, h2⟩ := hl
-    rw [hf] at h2; cases h2
-  | inr hr =>
-    obtain ⟨_, h2⟩ := hr
-    cases hb : readBom s with
-    | mk r s1 =>
-      rw [hb] at he h2 hd
-      simp only at he h2 hd
-      subst he
-      simp only []
-      rw [h2, hf]
-      obtain ⟨e2, _⟩ := linesSpec_rawLinesLE (Sched.pre s1)
-      rw [hd] at e2
-      cases hl : linesSpec .utf16le none (Sched.pre s1) with
-      | mk ls e => rw [hl] at e2; simp at e2; subst e2; rfl
+/-- together: `decode` fails if and only if the reader does, and with the same error. -/
+theorem decode_fails_iff_reader_fails (D : LineDecoder σ) (s : Sched) (k : IoKind) :
+    decodeSched D s = .error k ↔ Sched.firstFail s = some k :=
+  ⟨decode_err_only_from_reader D s k, read_fault_surfaces D s k⟩
 
-/-- the property as stated: every error of `decode` is an error the reader reported. -/
-def decode_err_only_from_reader_statement : Prop :=
-  ∀ (σ : Type) (D : LineDecoder σ) (s : Sched) (k : IoKind),
-    decodeSched D s = .error k → Sched.firstFail s = some k
-
-/-- **false of the code (finding F6)**: `FF FE 0A` from a reader that never fails. -/
-theorem decode_err_only_from_reader_false : ¬ decode_err_only_from_reader_statement := by
-  intro h
-  have := h Rec recorder [.chunk [0xFF, 0xFE, 0x0A]] .unexpectedEof rfl
-  cases this
+/-- the input that used to fail: a UTF-16LE file cut after the low byte of its last line feed. -/
+example : (decodeSched recorder [.chunk [0xFF, 0xFE, 0x0A]]).toOption.map (·.calls.length) = some 0 := by
+  decide
 
 /-! ## Write side -/
 
